@@ -259,6 +259,14 @@ inline std::string read_file(const std::string &p) {
 }
 inline int finish() { cur_case() = nullptr; stats().dump(); return stats().violations.empty() ? 0 : 3; }
 
+// tracking allocator for jwt_set_alloc(): every pointer released through it must have come from it.
+// (A library that releases OPENSSL_malloc'ed memory with the application's free hook, or the other way round,
+// looks fine with the default allocator and corrupts a pool allocator.)
+inline std::unordered_set<void *> &guard_live() { static std::unordered_set<void *> *s = new std::unordered_set<void *>; return *s; }
+inline long &guard_foreign_frees() { static long n = 0; return n; }
+inline void *guard_malloc(size_t n) { void *p = malloc(n ? n : 1); if (p) guard_live().insert(p); return p; }
+inline void guard_free(void *p) { if (!p) return; if (!guard_live().erase(p)) { guard_foreign_frees()++; return; } free(p); }
+
 // jwt_value_t constructors (the jwt_set_* macros of jwt.h are C-only: they assign 0 to an enum)
 inline jwt_value_t val_get(jwt_value_type_t t, const char *name) { jwt_value_t x; memset(&x, 0, sizeof x); x.type = t; x.name = name; return x; }
 inline jwt_value_t val_int(const char *name, long i, int replace = 0) { jwt_value_t x = val_get(JWT_VALUE_INT, name); x.int_val = i; x.replace = replace; return x; }
